@@ -19,6 +19,7 @@ CONSTANTS
   OpKinds <- AllOpsClaim
   FixIncr = TRUE
   SimLen = 500
+  Family = "c22"
 INIT DInit
 NEXT DNext
 INVARIANTS EmitAtEnd
